@@ -1,6 +1,7 @@
 """C12 - groups as sorted sets (clauses: TAINT unchecked append, DOM/SELECT insert/contains/&, DISPATCH+ROLE merge arms, ROLE ancestor queries)"""
 import re
 from engines import RefDeriv
+from engines import check_complete_iteration
 from prov import Prov, params_of, field_names
 
 CLAIM = ("(TAINT) an order-unchecked append to a group's id vector only ever receives an id that was obtained by iterating a group (a sorted, "
@@ -99,6 +100,9 @@ def run(ck, prog, ctx):
                   ("after de-duplicating BEFORE sorting (non-adjacent duplicates survive)" if sorts and dedups else "without establishing order and uniqueness (needs sort, then dedup, or checked inserts)")), where=b.where(st.line))
     ck.extra["whole_vector_constructions"] = ncons
     ck.extra["unchecked_append_wrappers"] = sorted(wrappers)
+
+    check_complete_iteration(ck, "DOM", prog, ["<&%s as std::ops::BitAnd>::bitand" % G, "<&%s as std::ops::BitOr>::bitor" % G, "<&%s as std::ops::BitOr<term::hpotermid::HpoTermId>>::bitor" % G, "<&%s as std::ops::Add<term::hpotermid::HpoTermId>>::add" % G,
+                                                    "<%s as std::convert::From<std::vec::Vec<term::hpotermid::HpoTermId>>>::from" % G, "<%s as std::iter::FromIterator<term::hpotermid::HpoTermId>>::from_iter" % G], "its operands")
 
     # ------------------------------------------------------------------ DOM/SELECT: insert
     ins = prog.body(G + "::insert")
